@@ -287,7 +287,7 @@ m('binomial', 'Binomial', 'var', trait='Variance', ret='r',
   ensures=['C02.binomial.var:: rv(r) == (self.n as real) * rv(self.p) * (1real - rv(self.p))'])
 
 UNITS = [
-    Unit('C02_dist', 'C02', FNS, use=STUBS, types=TYPES, consts=CONSTS, spec=SPEC, type_spec=TYPE_SPEC, preludes=PRE, broadcast=BC, level='L1',
+    Unit('C02_dist', ('C02', 'C18'), FNS, use=STUBS, types=TYPES, consts=CONSTS, spec=SPEC, type_spec=TYPE_SPEC, preludes=PRE, broadcast=BC, level='L1',
          notes='densities, masses, means and variances of 13 univariate laws against textbook formulas over the reals; '
                'constructors, setters and bulk updates against fresh(final parameters) with two-sided REJECT'),
 ]
